@@ -1,0 +1,13 @@
+//go:build !verif
+// +build !verif
+
+// Package verifhook provides named notification points used by the external
+// verification harness. Without the build tag "verif" every point is an empty,
+// inlinable function.
+package verifhook
+
+// Enabled reports whether hook points are compiled in.
+const Enabled = false
+
+// Point does nothing without the build tag "verif".
+func Point(name string, args ...interface{}) {}
